@@ -84,7 +84,14 @@ pub enum BrSpec {
     Indep(Sel),
     /// DynamicBrancher over a partition of the variables: variable i goes to part `i % parts.len()`
     /// when `interleave`, otherwise to consecutive blocks
-    Dynamic { parts: Vec<Sel>, interleave: bool },
+    /// `build`: 0 `DynamicBrancher::new(all)`, 1 `new([first])` + `add_brancher` for the rest, 2 the rest as a
+    /// nested `DynamicBrancher` added with `add_brancher`, 3 `new([])` + `add_brancher` for all
+    Dynamic {
+        parts: Vec<Sel>,
+        interleave: bool,
+        #[serde(default)]
+        build: u8,
+    },
     /// AlternatingBrancher; strategy 0..4
     Alternating { strategy: u8, other: Sel },
     /// AutonomousSearch::new(custom backup)
@@ -721,7 +728,7 @@ impl Built {
         let inner: Box<dyn Brancher> = match spec {
             BrSpec::Default => Box::new(self.solver.default_brancher()),
             BrSpec::Indep(sel) => boxed_indep(sel, &vars, &self.occ, self.seed),
-            BrSpec::Dynamic { parts, interleave } => {
+            BrSpec::Dynamic { parts, interleave, build } => {
                 let k = parts.len().max(1).min(n.max(1));
                 let mut groups: Vec<(Vec<DomainId>, Vec<u32>)> = vec![(vec![], vec![]); k];
                 for (i, v) in vars.iter().enumerate() {
@@ -729,13 +736,37 @@ impl Built {
                     groups[g].0.push(*v);
                     groups[g].1.push(self.occ[i]);
                 }
-                let bs: Vec<Box<dyn Brancher>> = groups
+                let mut bs: Vec<Box<dyn Brancher>> = groups
                     .iter()
                     .zip(parts.iter())
                     .filter(|(g, _)| !g.0.is_empty())
                     .map(|(g, sel)| boxed_indep(sel, &g.0, &g.1, self.seed))
                     .collect();
-                Box::new(DynamicBrancher::new(bs))
+                // semantically identical strategies, assembled through the different entry points
+                match build % 4 {
+                    1 if !bs.is_empty() => {
+                        let rest = bs.split_off(1);
+                        let mut d = DynamicBrancher::new(bs);
+                        for b in rest {
+                            d.add_brancher(b);
+                        }
+                        Box::new(d)
+                    }
+                    2 if bs.len() >= 2 => {
+                        let rest = bs.split_off(1);
+                        let mut d = DynamicBrancher::new(bs);
+                        d.add_brancher(Box::new(DynamicBrancher::new(rest)));
+                        Box::new(d)
+                    }
+                    3 => {
+                        let mut d = DynamicBrancher::new(vec![]);
+                        for b in bs {
+                            d.add_brancher(b);
+                        }
+                        Box::new(d)
+                    }
+                    _ => Box::new(DynamicBrancher::new(bs)),
+                }
             }
             BrSpec::Alternating { strategy, other } => {
                 let strat = match strategy % 4 {
